@@ -166,7 +166,7 @@ struct Exec {
         int rc;
         {
             LibScope l;
-            rc = crypto_secretstream_xchacha20poly1305_push(&s.ps(), out.p, op.null_outlen ? nullptr : &outlen, m.p, it.m.size(),
+            rc = crypto_secretstream_xchacha20poly1305_push(&s.ps(), out.p, op.null_outlen ? nullptr : &outlen, (op.null_ad && it.m.empty()) ? nullptr : m.p, it.m.size(),
                                                             (op.null_ad && it.ad.empty()) ? nullptr : ad.p, it.ad.size(), it.tag);
         }
         const char *ctx = context_of(s, before);
@@ -245,7 +245,7 @@ struct Exec {
         int rc;
         {
             LibScope l;
-            rc = crypto_secretstream_xchacha20poly1305_pull(st, mout.p, op.null_mlen ? nullptr : &mlen, op.null_tag ? nullptr : &tag, in.p, bytes.size(),
+            rc = crypto_secretstream_xchacha20poly1305_pull(st, (op.null_ad && mcap == 0) ? nullptr : mout.p, op.null_mlen ? nullptr : &mlen, op.null_tag ? nullptr : &tag, in.p, bytes.size(),
                                                             (op.null_ad && ad.empty()) ? nullptr : adb.p, ad.size());
         }
         dg.add((uint64_t) (rc == 0));
